@@ -333,6 +333,19 @@ func run(c *fw.Case) {
 				}
 			}
 		}
+		// IP-family pruning: the query workers skip the IPv4 (IPv6) part of every block if
+		// node.IPVersion classifies the condition as IPv6-only (IPv4-only), i.e. the classification
+		// is part of what the condition selects. It is sound only if no flow of the skipped family
+		// satisfies the formula (oracle truth, not goProbe's own evaluation).
+		if ipv := node.IPVersion(n); ipv == types.IPVersionV4 || ipv == types.IPVersionV6 {
+			c.Count("family_pruning_checked", 1)
+			for _, f := range pool {
+				if cond.Eval(f) && f.IsV4() != (ipv == types.IPVersionV4) {
+					st.violate("family_pruning_unsound|"+pruneClass(cond), "condition %q is classified as %v-only (node.IPVersion), so queries skip all flows of the other family, but the formula is true for flow %s", text, ipv, f.KeyString())
+					break
+				}
+			}
+		}
 		c.Count("key_layout_exact", len(pool))
 		c.Count("key_layout_spare", len(pool))
 		c.Count("eval_true", nTrue)
@@ -627,4 +640,41 @@ func concurrent(c *fw.Case, st *caseState, kept []parsed) {
 		st.violate("concurrent_evaluate", "condition %q on flow %s evaluated concurrently from %d goroutines: goProbe=%v oracle=%v panic=%q (sequential evaluation was correct)",
 			b.text, b.flow, workers, b.got, b.want, b.pm)
 	}
+}
+
+// pruneClass is the deterministic feature class of a condition for the pruning clause: which
+// connectives and comparators occur in it.
+func pruneClass(cd *gen.Cond) string {
+	has := map[string]bool{}
+	var walk func(n *gen.Cond)
+	walk = func(n *gen.Cond) {
+		if n == nil {
+			return
+		}
+		switch n.Kind {
+		case gen.COr:
+			has["or"] = true
+		case gen.CAnd:
+			has["and"] = true
+		case gen.CNot:
+			has["not"] = true
+		default:
+			if n.Op == "!=" {
+				has["ne"] = true
+			}
+		}
+		walk(n.L)
+		walk(n.R)
+	}
+	walk(cd)
+	var parts []string
+	for _, k := range []string{"and", "or", "not", "ne"} {
+		if has[k] {
+			parts = append(parts, k)
+		}
+	}
+	if len(parts) == 0 {
+		return "leaf"
+	}
+	return strings.Join(parts, ",")
 }
